@@ -1,6 +1,7 @@
 # C10 registry entry: see lib/registry.py for the field meanings
-PROP = {'rule': 'rapid-generated cases. budget: (capacity 1-256 cores incl. fractional, allocatable, node reservation annotation none/quantity/'
-         'reservedCPUs/both/malformed, threshold 0-100, min-percent nil/0-100, 0-8 pods with koordinator QoS label x kube QoS x '
+PROP = {'rule': 'rapid-generated cases. budget: (capacity 1-256 cores incl. fractional, allocatable, node reservation expressed both by the '
+         'kubelet (capacity-allocatable, cpu and memory) and by the annotation none/quantity/reservedCPUs/both/memory-only/malformed '
+         'with an optional memory entry, so the two multi-resource lists can be ordered differently per resource, threshold 0-100, min-percent nil/0-100, 0-8 pods with koordinator QoS label x kube QoS x '
          'meta-missing x metric-missing, 0-3 host apps, node usage above/below the pod sum) + one metamorphic growth step; non-trivial = '
          'a non-BE and a BE pod both have usage and the result is not floored by min-percent. setPolicy: (processor list sockets1-2 x '
          'numa1-2 x cores1-16 x threads{1,2,4}, adjacent or split sibling numbering, offline CPUs, NUMA off; arbitrary sub-list; want '
@@ -16,7 +17,9 @@ PROP = {'rule': 'rapid-generated cases. budget: (capacity 1-256 cores incl. frac
          'non-trivial = the history switches back to a policy it used before. In adjustByCPUSet and suppressHistory the BE tree may '
          'start non-uniform (descendants narrower than the root) and, under kubelet policy none, a crash-recovery state is injected '
          'after a round (root keeps the set, some pod/container dirs are cut to strict non-empty subsets, agent restarted with an '
-         'empty executor cache, same inputs repeated). distinct = FNV-64 of the full case.',
+         'empty executor cache, same inputs repeated). In suppressHistory the reserved-CPU / system-QoS annotations of the node topology '
+         'may change between two rounds (annotation-only update: same UID and generation), with a cpuset-mode round favoured right '
+         'after the change. distinct = FNV-64 of the full case.',
  'assumptions': ['pkg/koordlet/util/perf_group/perf_group_linux.go is replaced (build overlay only) by a cgo-free stand-in with the '
                  'same exported surface, because libpfm4 headers are not installed; no oracle touches perf counters',
                  'processor lists are what koordletutil.getProcessorInfos yields: non-empty, unique CPU ids, sorted by (node, socket, core, '
